@@ -101,6 +101,10 @@ class MediaRequestBase(RequestHandlerBase):
     Base class for serving media segments
     """
 
+    # origin_time is the time the stream last looped (not so for the
+    # Periods of a multi-period stream)
+    count_sequence_numbers: bool = False
+
     def generate_init_segment(
             self,
             media: models.MediaFile,
@@ -223,7 +227,7 @@ class MediaRequestBase(RequestHandlerBase):
         # Update the sequenceNumber field in the MovieFragmentHeader
         # box
         moof.mfhd.sequence_number = seg_num
-        if seg_time is not None and mode == 'live':
+        if seg_time is not None and mode == 'live' and self.count_sequence_numbers:
             # seg_num was estimated from the time and the average segment
             # duration, which can give the same number to two segments of a
             # track with varying durations. Count the segments instead
@@ -423,6 +427,8 @@ class LiveMedia(MediaRequestBase):
     This handler can be used for both on-demand and live streams, as
     the DASH live profile supports both use cases.
     """
+
+    count_sequence_numbers = True
 
     decorators = [uses_stream, uses_media_file]
 
